@@ -1,0 +1,15 @@
+//go:build verif
+
+package agent
+
+import "github.com/hashicorp/serf/serf"
+
+// Accessors used only by the verification harness (/verif). Compiled only with
+// -tags verif.
+
+// VerifFilterMembers calls the unexported member filter of the RPC layer
+// (handleMembersFiltered) exactly as the handler does. filterMembers does not
+// use its receiver.
+func VerifFilterMembers(members []serf.Member, tags map[string]string, status string, name string) ([]serf.Member, error) {
+	return (&AgentIPC{}).filterMembers(members, tags, status, name)
+}
